@@ -7,16 +7,32 @@ import proto
 from common import gen_data, as_input, rel, nfft_choices
 
 TRUSTED_BASE = [
-    "numpy.fft.fft/rfft are modelled as the DFT sum (parameter of the model; its twiddle table is e^{-2 pi i m/NFFT})",
+    "numpy.fft.fft/rfft are modelled as the DFT sum (parameter of the model; its twiddle table is e^{-2 pi i m/NFFT}); the "
+    "oracle's reference is the DFT sum itself (twiddle matrix product) for N*NFFT <= 70000 and numpy.fft.fft above that",
     "window samples are taken from the implementation (Window(N, name).data): window shape is C20's business",
-    "float64 rounding is not modelled: agreement is to relative tolerance 1e-9 of the output's max-norm",
+    "float64 rounding is not modelled: model/implementation agreement is to relative tolerance 1e-9 of the output's max-norm; "
+    "the oracle checks every bin to 1e-9 of that bin's own reference value plus 1e-12 of the largest bin",
+    "the Lean model is evaluated for N <= 600 only (list-based DFT sum); longer records are checked by the oracle alone",
 ]
 PARTIAL = []
-ASSUMPTIONS = ["detrend off, scale_by_freq off (as the property states)"]
+ASSUMPTIONS = ["detrend off (False / None / class default), scale_by_freq off (False / None / 0) as the property states; "
+               "the sampling frequency is varied (0.01, 1, 1024): with scaling off the result does not depend on it",
+               "class calls on 2-D data pass NFFT explicitly (the class default is the total number of samples, not the "
+               "number of rows)"]
 RULE = ("random data classes (noise, constant, integer, integer dtype, Python list, large dynamic range, tone, "
-        "complex dtype with zero imaginary part) x all 29 window names x NFFT in {N, N+1, 2N-1, 2N, prime, 2^k}; "
-        "1-D function, class, 2-D column-wise, and Wiener-Khinchin cases; non-trivial = N >= 2 and non-zero data; "
-        "distinct = distinct (kind, N, NFFT, window, data class, real/complex, data hash)")
+        "complex dtype with zero imaginary part, all-zero) x all 29 window names x NFFT in {N, N+1, 2N-1, 2N, prime, 2^k} "
+        "given explicitly (Python or numpy integer), by default (None / omitted -> N) or as 'nextpow2' (class); "
+        "N = 1..96 plus {128, 500, 1024, 4099}; 1-D function, class (.psd, P(), P.run(), FourierSpectrum.periodogram()), "
+        "2-D column-wise (function and class; array, nested list, Fortran order, transposed view; all data classes; "
+        "amplitudes 2^-30 and 2^17), and Wiener-Khinchin cases (N = 1..32, 64, 100; Y omitted or given; both correlation "
+        "methods); non-trivial = N >= 2 and non-zero data; "
+        "distinct = distinct (kind, shape, NFFT, NFFT spelling, window, data class, api, real/complex, data hash)")
+
+_DIRECT_MAX = 70000          # N*NFFT up to which the reference is the DFT sum written out (no FFT routine involved)
+_MODEL_MAX_N = 600           # the list-based Lean model is too slow beyond this record length
+_DETREND = {"False": False, "None": None}
+_SBF = {"False": False, "None": None, "0": 0}
+_worst = [0.0]               # largest (error / tolerance) ratio seen by the oracle (diagnostics only)
 
 
 def _spectrum():
@@ -29,18 +45,38 @@ def _win(N, name):
     return np.asarray(Window(N, name).data, dtype=float)
 
 
+def _dft(v, nfft):
+    """DFT_NFFT of the zero-padded vector: the defining sum for small sizes, numpy's FFT for long records"""
+    v = np.asarray(v).astype(complex)
+    N = len(v)
+    if N * nfft > _DIRECT_MAX:
+        return np.fft.fft(v, nfft)
+    k = np.arange(nfft).reshape(-1, 1)
+    n = np.arange(N).reshape(1, -1)
+    return np.exp(-2j * np.pi * ((k * n) % nfft) / nfft) @ v
+
+
 def _ref(x, w, nfft):
     xa = np.asarray(x)
-    ref = np.abs(np.fft.fft(xa * w, nfft)) ** 2 / len(xa)
+    ref = np.abs(_dft(xa * w, nfft)) ** 2 / len(xa)
     if np.isrealobj(xa):
         ref = ref[: nfft // 2 + 1]
     return ref
 
 
+def _pow2(N):
+    """2**ceil(log2 N) in integer arithmetic"""
+    p = 1
+    while p < N:
+        p *= 2
+    return p
+
+
 def _key(p):
     x = np.asarray(p["x"])
-    return "%s|%s|%s|%s|%s|%d" % (x.shape, p.get("nfft"), p.get("window"), p.get("dkind"),
-                                  np.iscomplexobj(x), hash(x.tobytes()) & 0xFFFFFF)
+    return "%s|%s|%s|%s|%s|%d|%s" % (x.shape, p.get("nfft"), p.get("window"), p.get("dkind"),
+                                     np.iscomplexobj(x), hash(x.tobytes()) & 0xFFFFFF,
+                                     "/".join(str(p.get(k, "")) for k in ("nfft_arg", "api", "form", "method", "ygiven")))
 
 
 def _nontrivial(p):
@@ -48,64 +84,141 @@ def _nontrivial(p):
     return x.shape[0] >= 2 and bool(np.any(x))
 
 
+def _opt_tags(p):
+    t = []
+    if p.get("nfft_arg"):
+        t.append("nfftarg:" + p["nfft_arg"])
+    if "sampling" in p:
+        t.append("sampling:%g" % p["sampling"])
+    if p.get("detrend", "False") != "False":
+        t.append("detrend:" + p["detrend"])
+    if p.get("sbf", "False") != "False":
+        t.append("scale_by_freq:" + p["sbf"])
+    if p.get("call"):
+        t.append("class-call:" + p["call"])
+    return t
+
+
 def _tags(p):
     x = np.asarray(p["x"])
     n = p.get("nfft")
     return ["data:" + p.get("dkind", "?"), "complex" if np.iscomplexobj(x) else "real",
-            "nfft:" + ("odd" if n % 2 else "even"), "win:" + p.get("window", "-")]
+            "nfft:" + ("odd" if n % 2 else "even"), "win:" + p.get("window", "-"),
+            "N:" + ("1" if len(x) == 1 else "2-96" if len(x) <= 96 else "128-600" if len(x) <= 600 else ">600")] + _opt_tags(p)
 
 
 # ---- 1-D function ---------------------------------------------------------------------------------
 
-def impl_func(p):
-    sp = _spectrum()
-    x = as_input(p["x"], p["dkind"])
-    nfft = p["nfft"]
-    if p.get("npint"):
-        nfft = [np.int64, np.int32, np.intp][p["npint"] - 1](nfft)
-    r = sp.speriodogram(x, NFFT=nfft, detrend=False, scale_by_freq=False, window=p["window"])
-    return [np.asarray(r)]
-
-
-def impl_class(p):
-    sp = _spectrum()
-    x = as_input(p["x"], p["dkind"])
+def _nfft_kw(p):
+    """the NFFT keyword as the case spells it: explicit (Python or numpy integer), None, 'nextpow2', or left out"""
+    a = p.get("nfft_arg", "explicit")
+    if a == "omit":
+        return {}
+    if a == "None":
+        return {"NFFT": None}
+    if a == "nextpow2":
+        return {"NFFT": "nextpow2"}
     nfft = p["nfft"]
     if p.get("npint"):
         nfft = [np.int64, np.int32, np.intp][p["npint"] - 1](nfft)     # e.g. 2**nextpow2(N): the library's own helper returns numpy.int64
-    P = sp.Periodogram(x, window=p["window"], NFFT=nfft, scale_by_freq=False)
-    return [np.asarray(P.psd)]
+    return {"NFFT": nfft}
+
+
+def _sampling_kw(p):
+    return {"sampling": p["sampling"]} if "sampling" in p else {}
+
+
+def impl_func(p):
+    sp = _spectrum()
+    x = as_input(p["x"], p["dkind"])
+    kw = dict(_nfft_kw(p))
+    kw.update(_sampling_kw(p))
+    r = sp.speriodogram(x, detrend=_DETREND[p.get("detrend", "False")], scale_by_freq=_SBF[p.get("sbf", "False")],
+                        window=p["window"], **kw)
+    return [np.asarray(r)]
+
+
+def _class_psd(p, x):
+    sp = _spectrum()
+    kw = dict(_nfft_kw(p))
+    kw.update(_sampling_kw(p))
+    call = p.get("call")
+    if call == "alias":
+        P = sp.FourierSpectrum(x, window=p["window"], scale_by_freq=False, **kw)
+        P.periodogram()
+    else:
+        P = sp.Periodogram(x, window=p["window"], scale_by_freq=False, **kw)
+        if call == "call":
+            P()
+        elif call == "run":
+            P.run()
+    return np.asarray(P.psd)
+
+
+def impl_class(p):
+    return [_class_psd(p, as_input(p["x"], p["dkind"]))]
 
 
 def model_1d(p):
     x = np.asarray(p["x"])
+    if len(x) > _MODEL_MAX_N:
+        return None
     w = _win(len(x), p["window"])
     return ("F", proto.request("sper", "F", [1 if np.isrealobj(x) else 0, p["nfft"]], [x, w]))
 
 
-def _oracle_vals(p, got, label):
-    x = np.asarray(p["x"])
-    w = _win(len(x), p["window"])
-    ref = _ref(x, w, p["nfft"])
+def _excess(got, ref):
+    """max over bins of |got-ref| / (1e-9 |ref_k| + 1e-12 max|ref|); 0 when equal everywhere"""
+    d = np.abs(got - ref)
+    tol = 1e-9 * np.abs(ref) + 1e-12 * float(np.max(np.abs(ref)))
+    bad = d > tol
+    with np.errstate(divide="ignore", invalid="ignore"):
+        q = np.where(d == 0, 0.0, d / np.where(tol > 0, tol, 1e-300))
+    e = float(np.max(q)) if q.size else 0.0
+    if np.isfinite(e) and e > _worst[0]:
+        _worst[0] = e
+    return e, (int(np.argmax(q)) if bad.any() else -1)
+
+
+def _check_column(x, w, nfft, got, label, desc):
+    """the property statement for one record: bins, realness, value of every bin, Parseval (complex data)"""
+    x = np.asarray(x)
+    ref = _ref(x, w, nfft)
     out = []
     got = np.asarray(got)
     if got.shape != ref.shape:
         out.append("%s: %d values returned, definition has %d bins (N=%d NFFT=%d %s %s)" % (
-            label, got.size, ref.size, len(x), p["nfft"], "complex" if np.iscomplexobj(x) else "real", p["window"]))
+            label, got.size, ref.size, len(x), nfft, "complex" if np.iscomplexobj(x) else "real", desc))
         return out
-    if np.iscomplexobj(got) or not np.all(np.isfinite(got)):
-        out.append("%s: result not real and finite" % label)
+    if got.dtype.kind != "f" or not np.all(np.isfinite(got)):
+        out.append("%s: result not real (floating) and finite: dtype %s (N=%d NFFT=%d %s)" % (label, got.dtype, len(x), nfft, desc))
         return out
     r = rel(got, ref)
     if r > 1e-9:
-        out.append("%s differs from |DFT(x*w)|^2/N: rel err %.2e (N=%d NFFT=%d window=%s data=%s)" % (
-            label, r, len(x), p["nfft"], p["window"], p["dkind"]))
+        out.append("%s differs from |DFT(x*w)|^2/N: rel err %.2e (N=%d NFFT=%d %s)" % (label, r, len(x), nfft, desc))
+    e, k = _excess(got, ref)
+    if k >= 0 and r <= 1e-9:
+        out.append("%s differs from |DFT(x*w)|^2/N at bin %d: %.6g returned, definition %.6g (largest bin %.3g; "
+                   "tolerance 1e-9 of the bin + 1e-12 of the largest; N=%d NFFT=%d %s)" % (
+                       label, k, got[k], ref[k], float(np.max(ref)), len(x), nfft, desc))
+    if not np.any(x) and np.any(got != 0):
+        out.append("%s of an all-zero record is not exactly zero (N=%d NFFT=%d %s)" % (label, len(x), nfft, desc))
     if np.iscomplexobj(x):
         lhs = float(np.mean(got))
         rhs = float(np.sum(np.abs(x * w) ** 2) / len(x))
         if abs(lhs - rhs) > 1e-9 * max(abs(rhs), 1e-300):
-            out.append("%s: Parseval fails: mean(P)=%.12g, sum|xw|^2/N=%.12g" % (label, lhs, rhs))
+            out.append("%s: Parseval fails: mean(P)=%.12g, sum|xw|^2/N=%.12g (N=%d NFFT=%d %s)" % (
+                label, lhs, rhs, len(x), nfft, desc))
     return out
+
+
+def _desc(p):
+    return "window=%s data=%s%s" % (p["window"], p["dkind"], "".join(" " + t for t in _opt_tags(p)))
+
+
+def _oracle_vals(p, got, label):
+    x = np.asarray(p["x"])
+    return _check_column(x, _win(len(x), p["window"]), p["nfft"], got, label, _desc(p))
 
 
 def oracle_func(p):
@@ -113,20 +226,43 @@ def oracle_func(p):
 
 
 def oracle_class(p):
-    return _oracle_vals(p, impl_class(p)[0], "Periodogram.psd")
+    return _oracle_vals(p, impl_class(p)[0], {"alias": "FourierSpectrum.periodogram() psd"}.get(p.get("call"), "Periodogram.psd"))
 
 
 # ---- 2-D ------------------------------------------------------------------------------------------
 
+def _x2d(p):
+    """the 2-D input in the form the case asks for (replays store the plain C-ordered array)"""
+    x = np.asarray(p["x"])
+    form = p.get("form", "array")
+    if form == "list":
+        return x.tolist()
+    if form == "fortran":
+        return np.asfortranarray(x)
+    if form == "tview":
+        return np.ascontiguousarray(x.T).T          # transposed view of a (c, r) array
+    return x
+
+
 def impl_2d(p):
     sp = _spectrum()
-    r = sp.speriodogram(p["x"], NFFT=p["nfft"], detrend=False, scale_by_freq=False, window=p["window"])
+    if p.get("api") == "class":
+        r = _class_psd(p, _x2d(p))
+    else:
+        kw = dict(_nfft_kw(p))
+        kw.update(_sampling_kw(p))
+        r = sp.speriodogram(_x2d(p), detrend=_DETREND[p.get("detrend", "False")],
+                            scale_by_freq=_SBF[p.get("sbf", "False")], window=p["window"], **kw)
     r = np.asarray(r)
+    if r.ndim != 2:
+        raise ValueError("2-D input: result has %d dimensions" % r.ndim)
     return [r[:, j] for j in range(r.shape[1])]
 
 
 def model_2d(p):
     x = np.asarray(p["x"])
+    if x.shape[0] > _MODEL_MAX_N:
+        return None
     w = _win(x.shape[0], p["window"])
     cols = [x[:, j] for j in range(x.shape[1])]
     return ("F", proto.request("sper2", "F", [1 if np.isrealobj(x) else 0, p["nfft"]], [w] + cols))
@@ -136,26 +272,36 @@ def oracle_2d(p):
     x = np.asarray(p["x"])
     got = impl_2d(p)
     w = _win(x.shape[0], p["window"])
-    out = []
+    label = "2-D Periodogram.psd" if p.get("api") == "class" else "2-D speriodogram"
     if len(got) != x.shape[1]:
-        return ["2-D speriodogram: %d columns returned for %d input columns" % (len(got), x.shape[1])]
+        return ["%s: %d columns returned for %d input columns" % (label, len(got), x.shape[1])]
     for j in range(x.shape[1]):
-        ref = _ref(x[:, j], w, p["nfft"])
-        if got[j].shape != ref.shape or rel(got[j], ref) > 1e-9:
-            out.append("2-D speriodogram column %d differs from the definition (shape %s window=%s)" % (
-                j, x.shape, p["window"]))
-            break
-    return out
+        out = _check_column(x[:, j], w, p["nfft"], got[j], "%s column %d" % (label, j),
+                            "shape %s form=%s %s" % (x.shape, p.get("form", "array"), _desc(p)))
+        if out:
+            return out[:2]
+    return []
+
+
+def _tags_2d(p):
+    x = np.asarray(p["x"])
+    return ["2d", "win:" + p["window"], "2d-data:" + p["dkind"], "2d-form:" + p.get("form", "array"),
+            "2d-api:" + p.get("api", "func"), "2d-dtype:" + str(x.dtype),
+            "2d-rows:" + ("1" if x.shape[0] == 1 else "<=24" if x.shape[0] <= 24 else ">24")] + (
+                ["2d-amp:" + p["amp"]] if p.get("amp") else []) + _opt_tags(p)
 
 
 # ---- Wiener-Khinchin ------------------------------------------------------------------------------
 
 def impl_wk(p):
     sp = _spectrum()
-    x = np.asarray(p["x"])
+    x = as_input(p["x"], p["dkind"])
     N = len(x)
+    kw = {}
+    if p.get("ygiven"):
+        kw["Y"] = as_input(np.array(p["x"]).copy(), p["dkind"])      # the same record passed explicitly as second channel
     r = sp.CORRELOGRAMPSD(x, lag=N - 1, window="rectangular", norm="biased", NFFT=p["nfft"],
-                          correlation_method=p["method"])
+                          correlation_method=p["method"], **kw)
     return [np.asarray(r)]
 
 
@@ -169,13 +315,16 @@ def model_wk(p):
 def oracle_wk(p):
     x = np.asarray(p["x"])
     got = impl_wk(p)[0]
-    ref = np.abs(np.fft.fft(x, p["nfft"])) ** 2 / len(x)
+    ref = np.abs(_dft(x, p["nfft"])) ** 2 / len(x)
     if got.shape != ref.shape:
         return ["correlogram has %d values, periodogram %d" % (got.size, ref.size)]
+    if got.dtype.kind != "f" or not np.all(np.isfinite(got)):
+        return ["correlogram not real and finite: dtype %s (N=%d NFFT=%d %s)" % (got.dtype, len(x), p["nfft"], p["method"])]
     d = float(np.max(np.abs(got - ref)))
     if d > 1e-9 * max(float(np.max(np.abs(ref))), 1e-300):
-        return ["Wiener-Khinchin fails: correlogram (rectangular, lag N-1, biased, NFFT=%d>=2N-1, %s) differs from "
-                "the periodogram by %.2e (N=%d)" % (p["nfft"], p["method"], d, len(x))]
+        return ["Wiener-Khinchin fails: correlogram (rectangular, lag N-1, biased, NFFT=%d>=2N-1, %s, Y %s, data=%s) differs "
+                "from the periodogram by %.2e (N=%d)" % (p["nfft"], p["method"], "given" if p.get("ygiven") else "omitted",
+                                                        p["dkind"], d, len(x))]
     return []
 
 
@@ -185,22 +334,55 @@ KINDS = {
     "class": {"impl": impl_class, "model": model_1d, "oracle": oracle_class, "rtol": 1e-9, "atol": 1e-300,
               "key": _key, "nontrivial": _nontrivial, "tags": _tags},
     "twod": {"impl": impl_2d, "model": model_2d, "oracle": oracle_2d, "rtol": 1e-9, "atol": 1e-300,
-             "key": _key, "nontrivial": _nontrivial,
-             "tags": lambda p: ["2d", "win:" + p["window"]]},
-    "wk": {"impl": impl_wk, "model": model_wk, "oracle": oracle_wk, "rtol": 1e-9, "atol": 1e-12,
+             "key": _key, "nontrivial": _nontrivial, "tags": _tags_2d},
+    "wk": {"impl": impl_wk, "model": model_wk, "oracle": oracle_wk, "rtol": 1e-9, "atol": 1e-300,
            "key": _key, "nontrivial": _nontrivial,
-           "tags": lambda p: ["wk:" + p["method"]]},
+           "tags": lambda p: ["wk:" + p["method"], "wk-data:" + p["dkind"], "wk-Y:" + ("given" if p.get("ygiven") else "omitted"),
+                              "wk-dtype:" + str(np.asarray(p["x"]).dtype),
+                              "wk-N:" + ("1" if len(p["x"]) == 1 else "2-32" if len(p["x"]) <= 32 else ">32")]},
 }
 
 
 KINDS["single"] = single.kind("C01")
 
+
+def _options(nrng, api):
+    """spellings that must not change the result (scaling off): sampling frequency on a quarter of the cases, the
+    function's detrend / scale_by_freq values, the way the class is made to compute.  One draw, mixed-radix decoded, so
+    the choices are independent of each other and of the loop index."""
+    o = int(nrng.integers(0, 4 * 2 * 2 * 3 * 6))
+    q = {}
+    if o % 4 == 0:
+        q["sampling"] = [0.01, 1024.0][(o // 4) % 2]
+    o //= 8
+    if api == "func":
+        if o % 2:
+            q["detrend"] = "None"
+        if (o // 2) % 3:
+            q["sbf"] = ["False", "None", "0"][(o // 2) % 3]
+    elif api == "class":
+        c = [None, None, None, "call", "run", "alias"][(o // 6) % 6]
+        if c:
+            q["call"] = c
+    return q
+
+
+def _matrix(nrng, r, c, cplx, dkind, i):
+    """an (r, c) matrix whose columns are records of the data classes of gen_data"""
+    if dkind == "mixed":
+        cols = [gen_data(nrng, r, cplx, kind=["noise", "const", "dyn", "tone", "int", "trend"][(j + i) % 6])[0] for j in range(c)]
+    else:
+        cols = [gen_data(nrng, r, cplx, kind=dkind)[0] for j in range(c)]
+    return np.stack(cols, axis=1)
+
+
 def gen(rng, nrng, tier):
     yield from single.gen("C01", nrng, tier)
     from spectrum.window import window_names
     names = sorted(window_names)
-    n_main = 260 if tier == "quick" else 4000
-    maxN = 48 if tier == "quick" else 96
+    quick = tier == "quick"
+    n_main = 260 if quick else 4000
+    maxN = 48 if quick else 96
     for i in range(n_main):
         N = int(nrng.integers(1, maxN + 1)) if i % 7 else int(nrng.integers(1, 5))
         cplx = bool(nrng.integers(0, 2))
@@ -210,20 +392,103 @@ def gen(rng, nrng, tier):
         q = {"x": x, "dkind": dk, "nfft": nfft, "window": name}
         if i % 10 == 3:
             q["npint"] = 1 + (i // 10) % 3
-        yield ("func" if i % 2 == 0 else "class", q)
-    n2 = 40 if tier == "quick" else 400
+        api = "func" if i % 2 == 0 else "class"
+        q.update(_options(nrng, api))
+        yield (api, q)
+
+    # default / alternative padding: NFFT None or left out (-> N), 'nextpow2' (class; -> 2**ceil(log2 N))
+    n_def = 72 if quick else 720
+    special = [1, 2, 3, 12, 16, 17]
+    for i in range(n_def):
+        j = i // 3
+        N = special[(j // 2) % len(special)] if j % 2 == 0 else int(nrng.integers(1, maxN + 1))
+        cplx = bool(nrng.integers(0, 2))
+        x, dk = gen_data(nrng, N, cplx)
+        api, arg = [("func", "None"), ("class", "None"), ("class", "nextpow2")][i % 3]
+        if arg == "None" and (i // 6) % 2:
+            arg = "omit"
+        q = {"x": x, "dkind": dk, "nfft": _pow2(N) if arg == "nextpow2" else N, "nfft_arg": arg,
+             "window": names[int(nrng.integers(0, len(names)))]}
+        q.update(_options(nrng, api))
+        yield (api, q)
+
+    # long records (oracle only above N = 600: the model is list-based)
+    big = [128, 500, 1024, 4099]
+    for i in range(12):
+        N = big[i % 4]
+        cplx = bool(nrng.integers(0, 2))
+        x, dk = gen_data(nrng, N, cplx, kind=["noise", "tone", "dyn"][i % 3])
+        nfft = [N, N + 1, 2 * N - 1, 2 * N][int(nrng.integers(0, 4))]
+        api = "func" if nrng.integers(0, 2) else "class"
+        q = {"x": x, "dkind": dk, "nfft": nfft, "window": names[int(nrng.integers(0, len(names)))]}
+        q.update(_options(nrng, api))
+        yield (api, q)
+
+    # all-zero records: the definition is exactly zero at every bin
+    for k, (N, nfft, cplx, api, arg) in enumerate([(8, 8, False, "func", None), (7, 16, True, "func", None),
+                                                   (1, 1, False, "class", None), (5, 9, True, "class", None),
+                                                   (12, 12, False, "func", "None"), (6, 8, True, "class", "nextpow2"),
+                                                   (16, 31, False, "class", None), (3, 6, True, "func", None)]):
+        q = {"x": np.zeros(N, dtype=complex if cplx else float), "dkind": "zero", "nfft": nfft,
+             "window": names[(7 * k + 3) % len(names)]}
+        if arg:
+            q["nfft_arg"] = arg
+        yield (api, q)
+    for k, (r, c, nfft, cplx, form) in enumerate([(5, 3, 8, False, "array"), (4, 2, 4, True, "list"), (1, 2, 3, False, "fortran")]):
+        yield ("twod", {"x": np.zeros((r, c), dtype=complex if cplx else float), "dkind": "zero", "nfft": nfft,
+                        "window": names[(11 * k + 5) % len(names)], "form": form})
+
+    n2 = 40 if quick else 400
     for i in range(n2):
         r = int(nrng.integers(2, 17)) if i % 5 else [1, 1, 2, 3][(i // 5) % 4]   # incl. one-row and square inputs
         c = int(nrng.integers(1, 5)) if i % 5 else [2, 3, 2, 3][(i // 5) % 4]
         cplx = bool(nrng.integers(0, 2))
         x = nrng.standard_normal((r, c)) + (1j * nrng.standard_normal((r, c)) if cplx else 0)
         yield ("twod", {"x": x, "dkind": "noise", "nfft": nfft_choices(nrng, r), "window": names[(3 * i) % len(names)]})
-    nw = 40 if tier == "quick" else 400
+
+    # 2-D: every data class, larger shapes, input containers / memory layouts, amplitudes, defaults, the class
+    kinds2 = ["noise", "intdtype", "const", "dyn", "czero", "int", "mixed", "tone"]
+    shapes = [(6, 40), (96, 3), (200, 3)]
+    n2b = 64 if quick else 400
+    for i in range(n2b):
+        if i % 4 == 0:
+            r, c = shapes[(i // 4) % 3]
+        else:
+            r, c = int(nrng.integers(1, 25)), int(nrng.integers(1, 7))
+        dk = kinds2[(i + i // 8) % 8]
+        cplx = bool(nrng.integers(0, 2)) and dk != "intdtype"
+        x = _matrix(nrng, r, c, cplx, dk, i)
+        o = int(nrng.integers(0, 4 * 6 * 6 * 5))
+        q = {"x": x, "dkind": dk, "window": names[int(nrng.integers(0, len(names)))], "form": ["array", "list", "fortran", "tview"][o % 4]}
+        o //= 4
+        if o % 6 < 2 and x.dtype.kind != "i":
+            amp = [-30, 17][o % 6]
+            q["x"] = x * 2.0 ** amp
+            q["amp"] = "2^%d" % amp
+        o //= 6
+        api = "class" if o % 6 == 0 else "func"
+        o //= 6
+        q["nfft"] = nfft_choices(nrng, r)
+        if api == "class":
+            q["api"] = "class"
+        elif o == 0:
+            q["nfft"] = r
+            q["nfft_arg"] = ["None", "omit"][i % 2]
+        q.update(_options(nrng, api))
+        yield ("twod", q)
+
+    nw = 60 if quick else 400
+    kinds_w = ["noise", "int", "const", "tone", "intdtype", "list", "czero", "dyn"]
     for i in range(nw):
-        N = int(nrng.integers(2, 33))
-        cplx = bool(nrng.integers(0, 2))
-        x, dk = gen_data(nrng, N, cplx, kind=["noise", "int", "const", "tone"][i % 4])
-        x = np.asarray(x, dtype=complex if cplx else float)
+        N = [1, 64, 100][(i // 5) % 3] if i % 5 == 4 else int(nrng.integers(2, 33))
+        dk = kinds_w[(i + i // 8) % 8]
+        cplx = bool(nrng.integers(0, 2)) and dk != "intdtype"        # integer dtype arrays are real
+        x, dk = gen_data(nrng, N, cplx, kind=dk)
+        if dk not in ("intdtype", "list"):
+            x = np.asarray(x, dtype=complex if np.iscomplexobj(x) else float)
         nfft = nfft_choices(nrng, 2 * N - 1)
-        yield ("wk", {"x": x, "dkind": dk, "nfft": nfft, "window": "rectangular",
-                      "method": "xcorr" if i % 2 else "CORRELATION"})
+        q = {"x": x, "dkind": dk, "nfft": nfft, "window": "rectangular",
+             "method": "xcorr" if i % 2 else "CORRELATION"}
+        if (i // 2) % 2:
+            q["ygiven"] = True
+        yield ("wk", q)
